@@ -105,7 +105,7 @@ Qed.
 (* reachable states keep the private geometry duplicate free *)
 Lemma m_step_nodup : forall c W o s, NoDup (y_gverts s) -> NoDup (y_gverts (fst (m_step c W o s))).
 Proof.
-  intros c W [i|] s Hn; simpl.
+  intros c W [i| |] s Hn; simpl.
   - unfold m_load.
     assert (Hn1 : NoDup (y_gverts (m_clear c s))).
     { unfold m_clear; simpl. destruct (clear_private_geometry c); [constructor | assumption]. }
@@ -114,6 +114,8 @@ Proof.
     destruct (add_vertices_spec _ _ _ _ Ea Hn1) as (_ & Hg & _). exact Hg.
   - destruct (y_desc s) as [i|]; [|assumption].
     destruct (negb (m_sflag (nth i W dummy_mdesc))); simpl; assumption.
+  - destruct (y_desc s) as [i|]; [|assumption].
+    destruct (negb (m_sflag2 (nth i W dummy_mdesc))); simpl; assumption.
 Qed.
 Lemma m_run_nodup : forall c W h s, NoDup (y_gverts s) -> NoDup (y_gverts (m_run c W h s)).
 Proof. induction h as [|o h IH]; intros s Hn; simpl; auto. apply IH, m_step_nodup, Hn. Qed.
